@@ -101,6 +101,11 @@ def gen(rng, tier):
             for k in ["bogus", "Weight", "shape_", "nodes2", "TYPE"]:
                 cases.append({"kind": "fields", "cls": cls, "mut": ["add", k], "depth": rng.choice([0, 1, 2]),
                               "via": rng.choice(["dict2node", "graph", "file"]), "seed": seed})
+    # a path that held a valid file is re-used for a malformed one with the same size and time stamp (cp -p, rsync -t,
+    # archive extraction, coarse-grained file systems): strictness must not depend on what was read from that path before
+    for cls in (rng.sample(LEGAL, 6) if tier == "quick" else LEGAL * 2):
+        if cls != "NIRGraph":
+            cases.append({"kind": "stalepath", "cls": cls, "how": rng.choice(["deltype", "delfield", "badtype"]), "seed": rng.randrange(2 ** 30)})
     # classes defined by the USER of the library after import (last: they stay defined for the rest of the process):
     # one with a new name, one that happens to be called like a primitive
     for nm in ["UserDefinedNode", "LIF"]:
@@ -151,7 +156,10 @@ def unwrap_node(n, depth):
     return n
 
 
-def to_file(d):
+VERSIONS = ["0.0-test", "0.0.3", "0.0.1", "0.1.0", "0.1.1", "0.2.0", "1.0.0", "0.0.", None, "current"]
+
+
+def to_file(d, version="0.0-test"):
     """independent raw-h5py writer of a dictionary form"""
     bio = io.BytesIO()
     def rec(grp, dd):
@@ -167,14 +175,63 @@ def to_file(d):
             else:
                 grp.create_dataset(k, data=v)
     with h5py.File(bio, "w") as f:
-        f.create_dataset("version", data="0.0-test")
+        if version == "current":
+            import nir
+            version = nir.version
+        if version is not None:      # what the file claims about its producer must not make the reader lenient
+            f.create_dataset("version", data=version)
         rec(f.create_group("node"), d)
     return bio
+
+
+def run_stalepath(c):
+    import os
+    import random
+    import shutil
+    import tempfile
+    import nir
+    rng = random.Random(c["seed"])
+    d = wrap(valid_dict(rng, c["cls"]), 1)
+    tmp = tempfile.mkdtemp(prefix="nirverif_c18_")
+    fail = None
+    sig = ("stalepath", c["cls"], c["how"])
+    try:
+        p = os.path.join(tmp, "model.nir")
+        open(p, "wb").write(to_file(d, "current").getvalue())
+        try:
+            with quiet():
+                nir.read(p)
+        except BaseException as e:  # noqa: BLE001
+            return Outcome(None, f"a valid {c['cls']} file was rejected with {type(e).__name__}", True, sig)
+        st = os.stat(p)
+        with h5py.File(p, "r+") as f:
+            grp = f["node/nodes/lvl0"]
+            if c["how"] == "deltype":
+                del grp["type"]
+            elif c["how"] == "delfield" and MANDATORY[c["cls"]]:
+                del grp[rng.choice(MANDATORY[c["cls"]])]
+            else:
+                del grp["type"]
+                grp.create_dataset("type", data="NIRNode", dtype=h5py.string_dtype())
+        os.utime(p, ns=(st.st_atime_ns, st.st_mtime_ns))
+        same = os.stat(p).st_size == st.st_size
+        try:
+            with quiet():
+                n = nir.read(p)
+            fail = (f"{c['cls']} file with {c['how']} was accepted (returned {type(n).__name__}) when read from a path that held a valid "
+                    f"file before (same mtime, size {'unchanged' if same else 'changed'})")
+        except BaseException:  # noqa: BLE001
+            pass
+    finally:
+        shutil.rmtree(tmp, ignore_errors=True)
+    return Outcome(None, fail, True, sig)
 
 
 def run(c):
     import random
     import nir
+    if c["kind"] == "stalepath":
+        return run_stalepath(c)
     rng = random.Random(c["seed"])
     if c["kind"] == "typestr":
         d = valid_dict(rng, c["like"])
@@ -234,7 +291,7 @@ def run(c):
             else:
                 full = wrap(d, max(depth, 1))
                 depth = max(depth, 1)
-                bio = to_file(full)
+                bio = to_file(full, rng.choice(VERSIONS))
                 with h5py.File(bio, "r") as f:
                     coq_in = pyobs.h5_term(f)
                 n = nir.read(bio)
